@@ -5,6 +5,7 @@ import Dbg.Model.Pipeline
 import Dbg.Lemmas.ShardTables
 import Dbg.Lemmas.ShardPipeline
 import Dbg.Lemmas.Idempotent
+import Dbg.Lemmas.Payload
 /-! # C04 — Sharded assembly equals unsharded assembly
 
 **Proved** (`C04_sharded_eq_direct`, last theorem of this file): for every read set and every configuration inside
@@ -349,18 +350,26 @@ structure SigmasOK (K P : Nat) (reads : List Seq) (perm : Option (Array Nat)) (s
       sg.Perm (List.range (refTable K sh.2 (.count thr) st).length)
   directOK : dsigma.Perm (List.range (refTable K (reads.map plainRead) (.count thr) st).length)
 
-/-- **C04 (partition).** For every read set, every configuration inside `msp_sequence`'s contract (`1 ≤ P ≤ K`, `K ≥ 4`,
-    the default or any injective minimizer permutation), stranded or not, every count threshold, with or without the
-    sharded pruning step, and every order in which the hash maps list their keys: **neither pipeline panics, and the
-    sharded pipeline — minimizer partition, per-shard filter (and pruning), per-shard compression, combination,
-    re-compression — produces the same partition of the retained k-mers into nodes as the one-pass pipeline**: every node
-    of either graph has exactly the canonical k-mers of some node of the other. -/
-theorem C04_sharded_eq_direct (K P : Nat) (reads : List Seq) (perm : Option (Array Nat)) (st : Bool) (thr : Nat) (prune : Bool)
+/-- what the two pipeline models compute, in terms of the reference table `R`, the shard tables `Ts` (in hash-map order)
+    and the one-pass table `Td` (in hash-map order) -/
+structure PipeSetup (K P : Nat) (reads : List Seq) (perm : Option (Array Nat)) (st : Bool) (thr : Nat) (prune : Bool)
+    (sigmas : List (List Nat)) (dsigma : List Nat) (R : Table Filter.Payload) (Ts : List (Table Filter.Payload))
+    (Td : Table Filter.Payload) : Prop where
+  hR : R = refTable K (reads.map plainRead) (.count thr) st
+  wfR : Compress.WF R K st
+  hesR : Filter.ExtSym2 R st
+  sw : Compress.Sandwich st Ts.flatten R
+  hpd : Td.Perm (Filter.removeCensoredExts st R)
+  shardedEq : ∀ outs g' paths, AllBuilt st (fun _ _ => true) sumReduce Ts outs →
+    CompressGraph.compressGraph st (⟨K, (outs.map fun o => o.map (·.1)).flatten, st⟩ : Graph.G Filter.Payload) (fun _ _ => true) sumReduce [] = some (g', paths) →
+    sharded K P reads perm st thr prune sigmas = some g'
+  directEq : ∀ outd, Compress.compressKmersC Td st (fun _ _ => true) sumReduce = some outd →
+    direct K (reads.map plainRead) st thr dsigma = some ⟨K, outd.map (·.1), st⟩
+
+theorem pipe_setup (K P : Nat) (reads : List Seq) (perm : Option (Array Nat)) (st : Bool) (thr : Nat) (prune : Bool)
     (sigmas : List (List Nat)) (dsigma : List Nat) (cfg : ShardCfg K P reads perm)
     (hs : SigmasOK K P reads perm st thr sigmas dsigma) :
-    ∃ gs gd, sharded K P reads perm st thr prune sigmas = some gs ∧
-      direct K (reads.map plainRead) st thr dsigma = some gd ∧ SameParts K st gs.nodes gd.nodes ∧
-      Graph.GInv gs ∧ CompressGraph.PalEnd gs := by
+    ∃ R Ts Td, PipeSetup K P reads perm st thr prune sigmas dsigma R Ts Td := by
   have hK1 : 1 ≤ K := by have := cfg.k4; omega
   have hnb : Filter.NoBoundary (reads.map plainRead) := by
     intro r hr; obtain ⟨r0, _, rfl⟩ := List.mem_map.mp hr; rfl
@@ -414,15 +423,8 @@ theorem C04_sharded_eq_direct (K P : Nat) (reads : List Seq) (perm : Option (Arr
   have hpd : Td.Perm (Filter.removeCensoredExts st R) := by
     apply Compress.perm_of_sigma
     rw [(Filter.removeCensored_exact st R).1, ← hR]; exact hs.directOK
-  obtain ⟨outs, g', paths, outd, hb, hcg, hod, hsame⟩ := Compress.sharded_eq_direct_abstract wfR hesR Ts sw sumReduce (fun _ _ => true) (fun _ _ => rfl) Td hpd
-  obtain ⟨outs2, g2, paths2, hb2, hcg2, hginv, hpalend⟩ := Compress.sharded_result_ginv wfR hesR Ts sw sumReduce (fun _ _ => true) (fun _ _ => rfl)
-  have houts := Compress.allBuilt_unique _ _ Ts outs outs2 hb hb2
-  subst houts
-  rw [hcg] at hcg2
-  have hg2 : g' = g2 := by have := Option.some.inj hcg2; exact congrArg Prod.fst this
-  subst hg2
-  refine ⟨g', ⟨K, outd.map (·.1), st⟩, ?_, ?_, hsame, hginv, hpalend⟩
-  · -- unfold the sharded pipeline
+  refine ⟨R, Ts, Td, hR.symm, wfR, hesR, sw, hpd, ?_, ?_⟩
+  · intro outs g' paths hb hcg
     unfold sharded
     rw [hshards]
     simp only
@@ -449,7 +451,8 @@ theorem C04_sharded_eq_direct (K P : Nat) (reads : List Seq) (perm : Option (Arr
     simp only [combine]
     rw [hcg]
     rfl
-  · unfold direct
+  · intro outd hod
+    unfold direct
     obtain ⟨fr, hfr, ht, _⟩ := Filter.filterKmers_eq_ref K (reads.map plainRead) (Summarizer.count thr) st false 4 Gen.filterBytesPerUnit 16 cfg.k4 (by decide) (by decide)
     have e : (reads.map plainRead) = reads.map fun r => (r, (⟨0⟩ : Exts), 0) := rfl
     rw [hfr]
@@ -457,6 +460,46 @@ theorem C04_sharded_eq_direct (K P : Nat) (reads : List Seq) (perm : Option (Arr
     rw [ht, hR]
     have : Compress.compressKmersC (dsigma.filterMap fun i => (Filter.removeCensoredExts st R)[i]?) st (fun _ _ => true) sumReduce = some outd := hod
     rw [this]
+
+
+/-- **C04 (partition).** For every read set, every configuration inside `msp_sequence`'s contract (`1 ≤ P ≤ K`, `K ≥ 4`,
+    the default or any injective minimizer permutation), stranded or not, every count threshold, with or without the
+    sharded pruning step, and every order in which the hash maps list their keys: **neither pipeline panics, and the
+    sharded pipeline — minimizer partition, per-shard filter (and pruning), per-shard compression, combination,
+    re-compression — produces the same partition of the retained k-mers into nodes as the one-pass pipeline**: every node
+    of either graph has exactly the canonical k-mers of some node of the other.  Moreover the sharded pipeline's final
+    graph satisfies the node-level invariant `GInv` (symmetric edges, complete `find_link`, complete GFA export). -/
+theorem C04_sharded_eq_direct (K P : Nat) (reads : List Seq) (perm : Option (Array Nat)) (st : Bool) (thr : Nat) (prune : Bool)
+    (sigmas : List (List Nat)) (dsigma : List Nat) (cfg : ShardCfg K P reads perm)
+    (hs : SigmasOK K P reads perm st thr sigmas dsigma) :
+    ∃ gs gd, sharded K P reads perm st thr prune sigmas = some gs ∧
+      direct K (reads.map plainRead) st thr dsigma = some gd ∧ SameParts K st gs.nodes gd.nodes ∧
+      Graph.GInv gs ∧ CompressGraph.PalEnd gs := by
+  obtain ⟨R, Ts, Td, ps⟩ := pipe_setup K P reads perm st thr prune sigmas dsigma cfg hs
+  obtain ⟨outs, g', paths, outd, hb, hcg, hod, hsame⟩ := Compress.sharded_eq_direct_abstract ps.wfR ps.hesR Ts ps.sw sumReduce (fun _ _ => true) (fun _ _ => rfl) Td ps.hpd
+  obtain ⟨outs2, g2, paths2, hb2, hcg2, hginv, hpalend⟩ := Compress.sharded_result_ginv ps.wfR ps.hesR Ts ps.sw sumReduce (fun _ _ => true) (fun _ _ => rfl)
+  have houts := Compress.allBuilt_unique _ _ Ts outs outs2 hb hb2
+  subst houts
+  rw [hcg] at hcg2
+  have hg2 : g' = g2 := by have := Option.some.inj hcg2; exact congrArg Prod.fst this
+  subst hg2
+  exact ⟨g', ⟨K, outd.map (·.1), st⟩, ps.shardedEq outs g' paths hb hcg, ps.directEq outd hod, hsame, hginv, hpalend⟩
+
+/-- **C04 (payload totals).** Under the same hypotheses: a node of the sharded pipeline's final graph and a node of the
+    one-pass graph that have the same k-mers have the same payload — the count total of the node, saturating at 2^32-1,
+    whatever the order in which shards, walks and re-compression folded the counts.  (By `C04_sharded_eq_direct` every node
+    of either graph has such a partner.) -/
+theorem C04_payloads_agree (K P : Nat) (reads : List Seq) (perm : Option (Array Nat)) (st : Bool) (thr : Nat) (prune : Bool)
+    (sigmas : List (List Nat)) (dsigma : List Nat) (cfg : ShardCfg K P reads perm)
+    (hs : SigmasOK K P reads perm st thr sigmas dsigma) :
+    ∃ gs gd, sharded K P reads perm st thr prune sigmas = some gs ∧
+      direct K (reads.map plainRead) st thr dsigma = some gd ∧
+      ∀ n ∈ gs.nodes, ∀ m ∈ gd.nodes, (∀ k, k ∈ Compress.canonKeys K st n ↔ k ∈ Compress.canonKeys K st m) → n.data = m.data := by
+  obtain ⟨R, Ts, Td, ps⟩ := pipe_setup K P reads perm st thr prune sigmas dsigma cfg hs
+  have hgR : Compress.GoodData R := by rw [ps.hR]; exact Compress.refTable_goodData K _ thr st
+  obtain ⟨outs, g', paths, outd, hb, hcg, hod, hdata⟩ :=
+    Compress.sharded_payload_abstract ps.wfR ps.hesR hgR Ts ps.sw (fun _ _ => true) (fun _ _ => rfl) Td ps.hpd
+  exact ⟨g', ⟨K, outd.map (·.1), st⟩, ps.shardedEq outs g' paths hb hcg, ps.directEq outd hod, hdata⟩
 
 /-- the hypotheses on the hash orders are satisfiable: the identity orders -/
 theorem sigmasOK_identity (K P : Nat) (reads : List Seq) (perm : Option (Array Nat)) (st : Bool) (thr : Nat)
